@@ -66,6 +66,9 @@ def mutators(b, rng):
         # non-ASCII text
         yield 'called-nonascii', b[:10] + b'\xff\xfe' + b[12:]
         yield 'calling-nonascii', b[:26] + b'\xc3\x28' + b[28:]
+        yield 'called-utf8', b[:10] + 'é'.encode('utf-8') + b[12:]
+        yield 'called-latin1-16', b[:10] + b'\xe9' * 16 + b[26:]
+        yield 'calling-latin1', b[:26] + b'M\xfcller' + b[32:]
         yield 'uid-nonascii', b[:80] + b'\x80\x81' + b[82:]
         yield 'protocol-version-0', b[:6] + b'\0\0' + b[8:]
         yield 'no-items', _set_len(b[:74], 68)
